@@ -17,5 +17,5 @@ for sid in sorted(mx):
     for pid, keys in det.items():
         rules = sorted({k.split("::")[0] for k in keys}) or [pid]
         now.append(", ".join(rules))
-    rows.append(f"| {sid} | {summ} | {'; '.join(now) if now else '**MISSED**'} |")
+    rows.append(f"| {sid} | {summ} | {'; '.join(now) if now else ('(superseded by a fix: no longer breaks the property)' if m.get('superseded') else '**MISSED**')} |")
 print("\n".join(rows))
